@@ -13,21 +13,25 @@ package auth
 //@ pred member(s, p) := exists k :: 0 <= k && k < len(s) && s[k] == p
 
 //@ func auth.WithPerm
+//@   safety
 //@   modifies nothing
 //@   ensures attaches-exactly: attached(result) && unbox(ctxValue(result, box(permCtxKey)), #[]Permission) == perms [C19]
 //@   nopanic [C19]
 
 //@ func auth.HasPerm
+//@   safety
 //@   modifies nothing
 //@   loop 1 invariant none-so-far: forall k :: 0 <= k && k <= rangeindex ==> callerPerms[k] != perm [C19]
 //@   ensures iff-member: result == member(callerSet(ctx, defaultPerms), perm) [C19]
 //@   nopanic [C19]
 
 //@ func auth.PermissionedProxy
+//@   safety
 //@   may_panic
 //@   at call reflect.MakeFunc: assert wrapper-only-for-validated-tag: ok && requiredPerm != "" [C19]
 
 //@ func auth.PermissionedProxy$1
+//@   safety
 //@   may_panic
 //@   requires len(args) >= 1 && istype(ifaceOf(args[0]), #context.Context)
 //@   ghost permOK : Bool = false
@@ -40,6 +44,7 @@ package auth
 //@   ensures allowed-means-invoked-once: permOK ==> calls(Call) == 1 [C19]
 
 //@ func (*auth.Handler).ServeHTTP
+//@   safety
 //@   requires h.Next != nil && h.Verify != nil
 //@   ghost hdr : U = nil
 //@   ghost q : U = nil
